@@ -404,7 +404,7 @@ class Executor(EvalMixin, StmtMixin):
             if d.pyname == cls.name and cls.module is not None and d.module == cls.module.name:
                 decl = d
         if decl is not None and cls.info is not None:
-            obj = SRef(RefS(decl.name), self.path.new_id())
+            obj = SRef(RefS(decl.name), self.path.new_id(decl.name))
             c, init = self.world.repo.find_method(cls.module.name, cls.name, '__init__')
             if init is not None:
                 fn = VFunc('%s.%s.__init__' % (c.module.name, c.name), init, c.module, owner=c, self_obj=obj)
@@ -824,6 +824,11 @@ class Executor(EvalMixin, StmtMixin):
                     q = z3.Int(fresh_name(var))
                     bound = SRef(RefS(dom.args[0].value), q)
                     guard = z3.And(guard, q >= 0, q < self.path.alloc_now())
+                    want = dom.args[0].value
+                    for oid, ocls in getattr(self.path, 'new_objs', []):
+                        if ocls != want and not self.world.is_subclass_decl(ocls, want) \
+                                and not self.world.is_subclass_decl(want, ocls):
+                            guard = z3.And(guard, q != oid)
                 elif dname == 'vals':
                     q = z3.Const(fresh_name(var), Val)
                     bound = SV(ValS, q)
